@@ -15,7 +15,8 @@ tr    : fields separated by `|`:
 pipe  : transforms separated by `;`
 cfg   : supports_distinct_on|except_all|intersect_all|wildcard cids   (0/1 flags)
 
-pdistinct  <cfg> <next> <pipe> -> ok next=<n> <pipe> | err
+infos : one entry per transform, separated by `;`: `n` (not looked at) or `s:<cids read>:<defined cid or ->`
+pdistinct  <cfg> <next> <pipe> <infos> -> ok next=<n> <pipe> | err
 punion     <pipe>              -> ok <pipe>
 pexcept    <cfg> <pipe>        -> ok <pipe> | err
 pintersect <cfg> <pipe>        -> ok <pipe> | err
@@ -151,15 +152,28 @@ def cfg (s : String) : Option Cfg :=
     pure { supportsDistinctOn := ← flag a, exceptAll := ← flag b, intersectAll := ← flag c, wildcards := ← cids w }
   | _ => none
 
+def info (s : String) : Option Info :=
+  match s.splitOn ":" with
+  | ["n"] => some { reads := none, defines := none }
+  | ["s", r, d] => do
+    let rs ← cids r
+    if d == "-" then pure { reads := some rs, defines := none }
+    else pure { reads := some rs, defines := some (← d.toNat?) }
+  | _ => none
+
+def infos (s : String) : Option (List Info) :=
+  if s.isEmpty then some [] else (s.splitOn ";").mapM info
+
 def handle (fields : List String) : Option String :=
   match fields with
-  | ["pdistinct", c, next, p] =>
-    match cfg c, next.toNat?, pipe p with
-    | some c, some n, some p =>
-      match distinct c n p with
+  | ["pdistinct", c, next, p, is] =>
+    match cfg c, next.toNat?, pipe p, infos is with
+    | some c, some n, some p, some is =>
+      if p.length != is.length then some "bad-request" else
+      match distinct c n (p.zip is) with
       | some (q, n') => some s!"ok next={n'} {showPipe q}"
       | none => some "err"
-    | _, _, _ => some "bad-request"
+    | _, _, _, _ => some "bad-request"
   | ["punion", p] =>
     match pipe p with
     | some p => some s!"ok {showPipe (union p)}"
